@@ -445,7 +445,13 @@ def generate(rng, tier, index):
             if cv and nm not in canvary.setdefault(o, []):
                 canvary[o].append(nm)
         elif k == "set":
-            ops.append(["set", o, rng.choice(names), enc(gen_value(rng, numstr))])
+            if rng.chance(0.06):
+                # a string value sized so that, in the file a save would write now, the end of this parameter's line
+                # falls on (or next to) a power-of-two offset: buffer / block boundaries are where I/O code breaks
+                ops.append(["set_aligned", o, rng.choice(names), rng.choice([512, 1024, 4096, 8192, 8192, 12288, 16384, 65536]),
+                            rng.choice([-1, 0, 0, 0, 1])])
+            else:
+                ops.append(["set", o, rng.choice(names), enc(gen_value(rng, numstr))])
         elif k == "set_parameters":
             d = {nm: enc(gen_value(rng, numstr)) for nm in rng.sample(names, rng.between(0, min(4, len(names))))}
             r = rng.below(10)
@@ -460,7 +466,12 @@ def generate(rng, tier, index):
                 ops.append(["set_parameters", o, d])
         elif k == "set_varylist":
             pool = canvary.get(o) if (canvary.get(o) and rng.chance(0.9)) else names
-            ops.append(["set_varylist", o, [rng.choice(pool) for _ in range(rng.between(0, 4))]])
+            vl = [rng.choice(pool) for _ in range(rng.between(0, 4))]
+            if rng.chance(0.4):
+                # the caller keeps ONE list object per parameters object, rewrites it in place and hands it in again
+                ops.append(["set_varylist", o, vl, 1])
+            else:
+                ops.append(["set_varylist", o, vl])
         elif k == "set_variable_values":
             ops.append(["set_variable_values", o, [enc(gen_value(rng, numstr)) for _ in range(6)]])
         elif k in ("update_other", "update_yourself"):
@@ -544,6 +555,7 @@ def execute(trace):
     objs = {}      # id -> real object
     models = {}    # id -> _Model
     shared = {}    # caller-side dict objects that are reused across calls
+    caller_lists = {}   # per parameters object: the one list object its caller keeps for set_varylist
     obs_flags = cfg.get("observe")
     paths = {}     # path -> ("ack"|"foreign", [(name, value)]) | ("unknown",)
     violation = None
@@ -676,6 +688,20 @@ def execute(trace):
                         v = dec(op[3])
                         o.set(op[2], v)
                         m.p[op[2]] = [v, False]
+                    elif kind == "set_aligned":
+                        name, boundary, delta = op[2], int(op[3]), int(op[4])
+                        # size of everything a save would write up to and including "name " in the documented
+                        # format (sorted keys, "key value\n"); pure function of the model, no file is touched
+                        keys_ = sorted(set(list(m.p.keys()) + [name]))
+                        before_ = sum(len(k_) + 1 + len(str(m.p[k_][0])) + 1 for k_ in keys_ if k_ < name)
+                        need = boundary + delta - (before_ + len(name) + 1) - 1     # minus the newline
+                        if need < 1:
+                            count("skip.set_aligned_no_room")
+                            continue
+                        v = ("q" * need)
+                        o.set(name, v)
+                        m.p[name] = [v, False]
+                        count("probe.value_aligned_to_%d" % boundary)
                     elif kind == "set_parameters_from":
                         src = op[2]
                         if src not in objs or src == oid:
@@ -711,7 +737,14 @@ def execute(trace):
                         if not all(n in allowed and n in m.p for n in vl):
                             count("skip.set_varylist_precondition")
                             continue
-                        o.set_varylist(list(vl))
+                        if len(op) > 3 and op[3]:
+                            # the caller's own list object for this parameters object: rewritten in place, passed again
+                            lst = caller_lists.setdefault(oid, [])
+                            lst[:] = vl
+                            count("probe.caller_list_reused")
+                            o.set_varylist(lst)
+                        else:
+                            o.set_varylist(list(vl))
                         m.vary = list(vl)
                     elif kind == "set_variable_values":
                         if not all(n in m.p for n in m.vary):
@@ -828,6 +861,7 @@ def execute(trace):
                             o = m = None
                             objs.clear()
                             models.clear()
+                            caller_lists.clear()
                             gc.collect()
                             disk.open_raws[:] = []
                             disk.frozen = False
